@@ -9,11 +9,11 @@ PROPS = {
     "C04": dict(
         level="exploration",
         technique="model-based stateful property testing (rapid) with harness-owned schedules: requests parked at drawn gates (k8s lookup, cloud call, storage write) for overlap and cancellation; per-pod model of the latest acknowledged ADD as oracle",
-        rule="history of 1..15 (thorough 40) steps over 5 pods x sandbox ids {current, older, never used}: plain ADD/DEL/GET, overlap steps (A parked at gate j, B issued for same/other pod), cancel steps (A cancelled while parked at gate j), pod recreation; non-trivial = the history really parked a request for an overlap or cancel step, or issued a stale-id DEL/GET against a newer ADD; distinct = distinct scenario hash",
+        rule="drawn pool configuration (IPv4 / dual stack, and IPv6-only in 1/6 of the cases as coverage beyond what Config.Validate admits); history of 1..15 (thorough 40) steps over 5 pods x sandbox ids {current, older, never used}: plain ADD/DEL/GET, overlap steps (A parked at gate j, B issued for same/other pod), cancel steps (A cancelled while parked at gate j), pod recreation; non-trivial = the history really parked a request for an overlap or cancel step, or issued a stale-id DEL/GET against a newer ADD; distinct = distinct scenario hash",
         assumptions=_assume + ["storage write failures and cloud faults are outside the statement's quantifier and are not injected"],
         level_text="every gate index between two external effects of a request is a drawable parking point, so 'B arrives while A is inside the cloud call' and 'cancel between database write and reply' are constructed deterministically; exploration over drawn histories, not exhaustive",
         level_note="a failed repeat of an acknowledged ADD leaves the model 'uncertain' (the statement pins neither outcome); see known finding C04-cancelled-repeat-add-releases-held",
-        tests=[dict(unit="daemon", test="TestVerifC04Requests", quick=1200, thorough=12000, timeout_quick=900),
+        tests=[dict(unit="daemon", test="TestVerifC04Requests", quick=3200, thorough=12000, timeout_quick=900),
                dict(unit="daemon", test="TestVerifC04KnownCancelledRepeat", quick=1, thorough=1, shards=1)],
     ),
 }
